@@ -4,7 +4,7 @@ Per scalar type S and value v (full ranges, boundary-biased), each run cold and 
 caches were warmed with an equal-but-differently-represented value:
   1. text = str(v) / isoformat() / str(member.value) / (timedelta: the emitted ISO text);
      string-marshalled types: marshal(v, t=S) == text;
-  2. unmarshal(S, carrier(text)) for the five carriers -> deep_same(result, v);
+  2. unmarshal(S, carrier(text)) for the six carriers (five kinds; memoryview also as a window into a larger buffer) -> deep_same(result, v);
   3. emitted temporal text read by an independent reader (date/time/datetime.fromisoformat; a
      harness grammar for ISO-8601 durations) means v, same offset;
   4. numbers -> temporal types = seconds since the Unix epoch in UTC (seconds of duration);
@@ -33,9 +33,9 @@ RULE = ("scalar (type, value) pairs over the full ranges x 5 text carriers x {co
         "the warmed-cache variant; distinct by (type, value, carrier/clause, warm?)")
 ASSUMPTIONS = ["textual *numeric* input to temporal types is not judged", "seconds-granular UTC offsets are outside the domain",
                "float epoch seconds are compared with a 1 microsecond tolerance (two correctly rounded paths)"]
-TECHNIQUE = "property-based testing: per-type round-trip of canonical text in five carriers, differential against independent readers (fromisoformat, own ISO-8601 duration grammar) and against epoch arithmetic, with cache-warming metamorphic variant"
+TECHNIQUE = "property-based testing: per-type round-trip of canonical text in six carriers (five kinds; memoryview also as a window into a larger buffer), differential against independent readers (fromisoformat, own ISO-8601 duration grammar) and against epoch arithmetic, with cache-warming metamorphic variant"
 LEVEL_TEXT = ("Exploration over the full value ranges of 14 scalar types with boundary bias: tens of thousands of values per run, "
-              "each checked through five carriers, an independent reader and the numeric conversions, cold and cache-warmed.")
+              "each checked through six carriers (five kinds; memoryview also as a window into a larger buffer), an independent reader and the numeric conversions, cold and cache-warmed.")
 LEVEL_NOTE = "trusts CPython's fromisoformat and datetime arithmetic as the independent readers"
 
 EPOCH = datetime.datetime(1970, 1, 1, tzinfo=datetime.timezone.utc)
@@ -244,7 +244,7 @@ def check_scalar(t, v, col, warm=False):
             ok, r = False, e
         if not ok:
             col.violation("independent-reader", base, f"{t} text {text!r} reads as {r!r}, value {vsrc}", bucket=t)
-    # 2. five carriers
+    # 2. six carriers (five kinds; memoryview also as a window into a larger buffer)
     for c in inputs.CARRIERS:
         col.ev()
         if is_b:
